@@ -45,6 +45,14 @@ def items_of(pid):
     return importlib.import_module("harness.props.%s_pyfun" % pid)
 
 
+def file_names(mod):
+    """Module names of the snapshot / equality proofs / property file in theories/<pid>/ (a property that
+    already owns a Gen.v, e.g. C20, sets FILES = {"gen": "GenPy", "eq": "GenPyEq", "prop": "PropertyGenPy"})."""
+    f = {"gen": "Gen", "eq": "GenEq", "prop": "PropertyGen"}
+    f.update(getattr(mod, "FILES", {}) or {})
+    return f
+
+
 def regenerate(pid, mod=None, repo=None):
     """-> (module text or None, infos, errors).  errors = [(item name, message)]."""
     mod = mod or items_of(pid)
@@ -178,14 +186,14 @@ def enc(v):
 # re-proof against regenerated text
 # ---------------------------------------------------------------------------
 
-def _rewrite_imports(src, pid):
+def _rewrite_imports(src, pid, names):
     """`From Whad Require Import ... <pid>.Gen <pid>.GenEq ...` -> the regenerated copies (PyRegen)."""
     out = []
     for line in src.splitlines():
         m = re.match(r"^From Whad Require Import (.*)\.\s*$", line)
         if m:
             mods = m.group(1).split()
-            mine = [x for x in mods if x in (pid + ".Gen", pid + ".GenEq")]
+            mine = [x for x in mods if x in (pid + "." + names["gen"], pid + "." + names["eq"])]
             rest = [x for x in mods if x not in mine]
             line = ""
             if rest:
@@ -196,29 +204,31 @@ def _rewrite_imports(src, pid):
     return "\n".join(out) + "\n"
 
 
-def reprove(pid, text):
+def reprove(pid, text, names=None):
     """Compile the regenerated Gen.v + copies of GenEq.v / PropertyGen.v in build/<pid>/pyfun.
     -> (ok, failed_file or None, log, n_theorems)"""
+    names = names or file_names(None)
+    G, Q, P = names["gen"] + ".v", names["eq"] + ".v", names["prop"] + ".v"
     d = os.path.join(C.build_dir(pid), "pyfun")
     shutil.rmtree(d, ignore_errors=True)
     os.makedirs(d)
     tdir = os.path.join(C.COQ, "theories", pid)
-    open(os.path.join(d, "Gen.v"), "w").write(text)
-    for fn in ("GenEq.v", "PropertyGen.v"):
-        open(os.path.join(d, fn), "w").write(_rewrite_imports(open(os.path.join(tdir, fn)).read(), pid))
-    thms = C.property_theorems(pid, "PropertyGen.v")
+    open(os.path.join(d, G), "w").write(text)
+    for fn in (Q, P):
+        open(os.path.join(d, fn), "w").write(_rewrite_imports(open(os.path.join(tdir, fn)).read(), pid, names))
+    thms = C.property_theorems(pid, P)
     with open(os.path.join(d, "AssumeGen.v"), "w") as f:
-        f.write("From PyRegen Require Import PropertyGen.\n")
+        f.write("From PyRegen Require Import %s.\n" % names["prop"])
         for n in thms:
             f.write('Goal True. idtac "BEGIN %s". Abort.\nPrint Assumptions %s.\nGoal True. idtac "END %s". Abort.\n' % (n, n, n))
     hits = C.forbidden_scan([d])
     if hits:
         return False, "forbidden", "forbidden declarations in regenerated files: " + "; ".join(hits[:3]), len(thms)
     out = ""
-    for fn in ("Gen.v", "GenEq.v", "PropertyGen.v", "AssumeGen.v"):
+    for fn in (G, Q, P, "AssumeGen.v"):
         rc, out = C.coqc_file(os.path.join(d, fn), extra_Q=[(d, "PyRegen")], timeout=300)
         if rc != 0:
-            return False, fn, out[-2500:], len(thms)
+            return False, ("Gen.v" if fn == G else "GenEq.v" if fn == Q else fn), out[-2500:], len(thms)
     closed = sum(1 for n in thms if ("BEGIN %s\nClosed under the global context" % n) in out.replace("\r", ""))
     if closed != len(thms):
         return False, "AssumeGen.v", "only %d/%d theorems closed under the global context:\n%s" % (closed, len(thms), out[-1500:]), len(thms)
@@ -231,6 +241,7 @@ def reprove(pid, text):
 
 def check_generated(ctx, pid, items=None, ncases=None):
     mod = items or items_of(pid)
+    names = file_names(mod)
     res = {"ok": True, "detail": "", "first_case": None, "what": None, "problems": []}
     cov = {"items": [], "identical_to_snapshot": None}
     ctx.cov["pyfun"] = cov
@@ -248,11 +259,11 @@ def check_generated(ctx, pid, items=None, ncases=None):
     t0 = time.time()
     # ---- 2. theorems over the snapshot (PropertyGen.v) --------------------------------
     saved_cmd = ctx.cov.get("checker_cmd", "")
-    ok, detail = ctx.check_proofs(property_file="PropertyGen.v", lib_targets=["theories/Lib/Bytes.vo", "theories/Lib/PyOps.vo"])
+    ok, detail = ctx.check_proofs(property_file=names["prop"] + ".v", lib_targets=["theories/Lib/Bytes.vo", "theories/Lib/PyOps.vo"])
     ctx.cov["checker_cmd"] = (saved_cmd + " ; " if saved_cmd else "") + ctx.cov.get("checker_cmd", "")
     cov["snapshot_theorems"] = detail.splitlines()[0][:200]
     if not ok:
-        fail("equality theorems over the committed snapshot theories/%s/Gen.v (PropertyGen.v)" % pid, detail)
+        fail("equality theorems over the committed snapshot theories/%s/%s.v (%s.v)" % (pid, names["gen"], names["prop"]), detail)
 
     t1 = time.time()
     # ---- 1. regenerate -----------------------------------------------------------------
@@ -268,7 +279,7 @@ def check_generated(ctx, pid, items=None, ncases=None):
         cov["translator_errors"] = errors
         fail("translator (fail-closed) could not translate: " + ", ".join(n for n, _ in errors),
              "\n".join("%s: %s" % e for e in errors))
-    snap_path = os.path.join(C.COQ, "theories", pid, "Gen.v")
+    snap_path = os.path.join(C.COQ, "theories", pid, names["gen"] + ".v")
     snap = open(snap_path).read()
     d = C.build_dir(pid)
     usable = False
@@ -281,12 +292,12 @@ def check_generated(ctx, pid, items=None, ncases=None):
             usable = True
             if ok:
                 ctx.cov["discharged"] += 1
-                cov["equality"] = "regenerated text identical to the snapshot: covered by theories/%s/GenEq.vo, PropertyGen.vo built in this run" % pid
+                cov["equality"] = "regenerated text identical to the snapshot: covered by theories/%s/%s.vo, %s.vo built in this run" % (pid, names["eq"], names["prop"])
         else:
             diff = "".join(difflib.unified_diff(T.strip_headers(snap).splitlines(True), T.strip_headers(text).splitlines(True),
                                                 "theories/%s/Gen.v (snapshot)" % pid, "regenerated from " + C.REPO, n=2))
             cov["diff"] = diff[:4000]
-            rok, failed, log, nthm = reprove(pid, text)
+            rok, failed, log, nthm = reprove(pid, text, names)
             usable = failed != "Gen.v"
             if rok:
                 ctx.cov["discharged"] += 1
@@ -419,7 +430,7 @@ def main(argv):
             print("ERROR %s: %s" % e)
         return 1
     if "--write-snapshot" in argv:
-        p = os.path.join(C.COQ, "theories", pid, "Gen.v")
+        p = os.path.join(C.COQ, "theories", pid, file_names(items_of(pid))["gen"] + ".v")
         open(p, "w").write(text)
         print("wrote", p)
     else:
